@@ -523,10 +523,24 @@ class SymInt:
     def __repr__(self):
         return f"SymInt({self.e})"
 
-    def __and__(self, o):  # bitwise & on event masks: only concrete masks expected
-        return ENGINE.concretize(self.e) & int(o)
+    # bitwise & and | (event masks): with a concrete other operand the symbolic one is concretised when it has few feasible
+    # values; otherwise (a cell of an np.empty array, a symbolic mask) the operation is encoded on 16-bit vectors
+    def _bits(self, o, op):
+        if isinstance(o, SymInt) or HAVOC:
+            a, b = z3.Int2BV(self.e, 16), z3.Int2BV(as_z3int(o), 16)
+            return mk_int(z3.BV2Int(a & b if op == "&" else a | b))
+        v = ENGINE.concretize(self.e)
+        return v & int(o) if op == "&" else v | int(o)
+
+    def __and__(self, o):
+        return self._bits(o, "&")
 
     __rand__ = __and__
+
+    def __or__(self, o):
+        return self._bits(o, "|")
+
+    __ror__ = __or__
 
 
 class SymBool:
@@ -989,6 +1003,19 @@ class SArray:
 
     def max(self):
         return sym_max(self.flat_values())
+
+    def any(self):
+        return np_any(self)
+
+    def all(self):
+        return np_all(self)
+
+    def sum(self):
+        vals = self.flat_values()
+        tot = 0
+        for v in vals:
+            tot = tot + (v if not isinstance(v, (bool, SymBool)) else (mk_int(z3.If(as_z3bool(v), 1, 0)) if isinstance(v, SymBool) else int(v)))
+        return tot
 
     def fill(self, v):
         self[...] if False else None
